@@ -158,10 +158,14 @@ def build_public(s):
     """Only what a user types: P(...), P[...](...), PP[pop](...), Q[...](...), *, /, Sum[...](...), One(), Zero()."""
     from y0.dsl import PP, One, P, Q, Sum, Variable, Zero
 
+    def pv(n, star):
+        v = Variable(n)
+        return v if star is None else (+v if star else -v)
+
     t = s["t"]
     if t == "P":
-        ch = [Variable(n, star=s_) for n, s_ in s["ch"]]
-        pa = [Variable(n, star=s_) for n, s_ in s["pa"]]
+        ch = [pv(n, s_) for n, s_ in s["ch"]]
+        pa = [pv(n, s_) for n, s_ in s["pa"]]
         dist = ch[0]
         if len(ch) > 1:
             dist = dist.joint(ch[1:])
@@ -169,7 +173,7 @@ def build_public(s):
             dist = dist.given(pa) if len(ch) == 1 else dist | pa
         builder = PP[Variable(s["pop"])] if s["pop"] else P
         if s["do"]:
-            ints = [Variable(n, star=True) if st_ else Variable(n) for n, st_ in s["do"]]
+            ints = [+Variable(n) if st_ else Variable(n) for n, st_ in s["do"]]
             return builder[ints](dist)
         return builder(dist)
     if t == "Q":
